@@ -353,9 +353,10 @@ class FileBufferedCollection(BufferedCollection):
                 collection._flush(force=force)
             except (OSError, MetadataError) as err:
                 issues[collection._filename] = err
-        if not issues:
-            cls._buffered_collections = remaining_collections
-        else:
+        # Collections that remain buffered must stay registered even if some
+        # files could not be flushed; otherwise they are never flushed again.
+        cls._buffered_collections = remaining_collections
+        if issues:
             raise BufferedError(issues)
 
     @classmethod
